@@ -5,7 +5,8 @@ Line-protocol glue for C02.  One request = one complete case (a datatype tree an
 
   {"p":"C02","k":"case","dt":T,"v":V,"fmt":[[pos,bitsIn,bitsBack],..],
    "impl":{"exp":OJ,"node":OV,"client":OV,"cdt":T|null,"text":OT,"back":OV,"again":OT,
-           "cval":OV,"ctext":OT,"cback":OV,"cagain":OT,"sent":OJ,"cnode":OV}}
+           "cval":OV,"ctext":OT,"cback":OV,"cagain":OT,"sent":OJ,"cnode":OV,"vsent":OJ,"vnode":OV}}
+      (`cval` = the value of the cache entry `updateValue` made; `vsent` = what `setParameter(cval)` sent)
       OJ/OV/OT = {"ok": <JSON value / value / text>} | {"err": "<class>"} | null
   → {"wf":b,"valid":b,"canon":b,"complete":b,"model":{…same keys…},"judge":[failed clauses],"b64":b}
 
@@ -181,9 +182,12 @@ def handle (j : Json) : R Json := do
     let mback := bind (some mtext) (fun t => ofExcept (fromString L dt t))
     let magain := bind mback (fun v' => ofOption (toString L dt v'))
     -- the client: cache item from the update, its text, the string write
-    let mcval := mclient
+    let mitem := match cdt with
+      | some c => bind (some mexp) (fun jv => ofExcept (updateValue c jv))
+      | none => none
+    let mcval := bind mitem (fun item => .ok item.value)
     let mctext := match cdt with
-      | some c => bind mcval (fun cv => ofOption (cacheItemStr L c cv))
+      | some c => bind mitem (fun item => ofOption (item.str L c))
       | none => none
     let mcback := match cdt with
       | some c => bind mctext (fun t => ofExcept (fromString L c t))
@@ -195,11 +199,16 @@ def handle (j : Json) : R Json := do
       | some c => bind mctext (fun t => ofExcept (clientSetFromString L c t))
       | none => none
     let mcnode := bind msent (fun jv => ofExcept (importValue dt jv))
+    let mvsent := match cdt with
+      | some c => bind mcval (fun cv => ofExcept (clientSet c cv))
+      | none => none
+    let mvnode := bind mvsent (fun jv => ofExcept (importValue dt jv))
     -- ---- the implementation, judged ------------------------------------------------------
     let iexp ← io jvalOfJson "exp"; let inode ← io pvalOfJson "node"; let iclient ← io pvalOfJson "client"
     let itext ← io textOfJson "text"; let iback ← io pvalOfJson "back"; let iagain ← io textOfJson "again"
     let icval ← io pvalOfJson "cval"; let ictext ← io textOfJson "ctext"; let icback ← io pvalOfJson "cback"
     let icagain ← io textOfJson "cagain"; let isent ← io jvalOfJson "sent"; let icnode ← io pvalOfJson "cnode"
+    let ivsent ← io jvalOfJson "vsent"; let ivnode ← io pvalOfJson "vnode"
     let valid := validB dt v
     let canon := canonB v
     let complete := completeB dt v
@@ -224,7 +233,10 @@ def handle (j : Json) : R Json := do
          (match icback, isent with
           | some b, some s => judgeClientWrite dt b s icnode
           | some (.ok _), none => ["cwrite:missing"]
-          | _, _ => [])
+          | _, _ => []) ++
+         (match ivsent with
+          | some s => (judgeClientWrite dt (.ok cv) s ivnode).map (fun c => "cset:" ++ (c.drop 7).toString)
+          | none => ["cset:missing"])
        | _, _ => [])
     let b64ok := match v with
       | .bytes b => Base64.decode? (Base64.encode b) == some b
@@ -237,7 +249,8 @@ def handle (j : Json) : R Json := do
         ("again", outToJson textToJson magain), ("cval", outToJson pvalToJson mcval),
         ("ctext", outToJson textToJson mctext), ("cback", outToJson pvalToJson mcback),
         ("cagain", outToJson textToJson mcagain), ("sent", outToJson jvalToJson msent),
-        ("cnode", outToJson pvalToJson mcnode)]),
+        ("cnode", outToJson pvalToJson mcnode), ("vsent", outToJson jvalToJson mvsent),
+        ("vnode", outToJson pvalToJson mvnode)]),
       ("judge", jstrs verdict), ("b64", .bool b64ok)]
   | _ => throw s!"C02: unknown verb {k}"
 
